@@ -882,3 +882,113 @@ Proof.
     destruct (msg_outputs_nosess ctl h c to tag W Hb Hn) as [E|E]; rewrite E in He'; cbn in He'; [destruct He'|].
     destruct He' as [<-|[]]. reflexivity.
 Qed.
+
+(* ------------------------------------------------------------------ 2. not back to the sender; only the sender's backend *)
+Lemma linked_unique h c x y : linked h c x -> linked h c y -> x = y.
+Proof. intros (cn & A & B) (cn' & A' & B'). congruence. Qed.
+
+(* every output is one copy of the message, written to a connection *)
+Theorem msg_outputs_shape ctl h c to tag sid s o :
+  WF h -> RI h -> h_bus h = [] -> conn_sess h c sid s ->
+  In o (snd (qstep h (op_of ctl c to tag))) ->
+  exists c' r rc t, o = ToConn c' (the_msg h (kind_of ctl) sid s to rc tag) /\
+    In (r, rc) (ref_targets (digest_of h) ctl (sd_of h (sid, s)) to) /\ get_sess h r = Some t /\ s_conn t = Some c'.
+Proof.
+  intros W I Hb Hcs Hin. destruct (qstep_msg ctl h c to tag sid s W I Hb Hcs) as (h2 & outs & Hq & R).
+  rewrite Hq in Hin. cbn [snd] in Hin. destruct R as (Ho & _). cbn [app] in Ho. rewrite Ho in Hin.
+  apply in_flat_map in Hin as ([r rc] & HT & Hx). cbn [fst snd] in Hx. unfold out_for in Hx.
+  destruct (get_sess h r) as [t|] eqn:Ht; [|destruct Hx]. destruct (s_conn t) as [c0|] eqn:Hc0; [|destruct Hx].
+  destruct Hx as [<-|[]]. exists c0, r, rc, t. auto.
+Qed.
+
+(* no copy goes to the sender's own connection - except the copy for a virtual session whose internal
+   client is the sender, with the recipient rewritten to the virtual session's id *)
+Theorem msg_not_to_sender ctl h c to tag sid s m :
+  WF h -> RI h -> h_bus h = [] -> conn_sess h c sid s ->
+  In (ToConn c m) (snd (qstep h (op_of ctl c to tag))) ->
+  exists n t v, to = RSession (IdPub n) /\ get_sess h n = Some t /\ s_kind t = KVirtual sid v /\
+                m = the_msg h (kind_of ctl) sid s to (Some (RcptVirtual v)) tag.
+Proof.
+  intros W I Hb Hcs Hin.
+  destruct (msg_outputs_shape ctl h c to tag sid s _ W I Hb Hcs Hin) as (c' & r & rc & t & E & HT & Hr & Hc).
+  injection E as <- ->. pose proof (conn_sess_conn h c sid s W Hcs) as Hsc. pose proof Hcs as (cn & Hcn & Hl & Hs).
+  assert (Hrs : r = sid).
+  { apply (linked_unique h c); [exact (ri_conn _ _ I r t c Hr Hc)|exists cn; auto]. }
+  subst r. destruct (targets_shape h c sid s to sid rc W I Hs Hsc (in_ref_targets _ _ _ _ _ HT)) as [_ [[_ Hne]|(n & tn & v & A & B & C & D)]].
+  - now contradiction Hne.
+  - exists n, tn, v. subst rc. auto.
+Qed.
+
+Theorem msg_same_backend ctl h c to tag sid s c' m :
+  WF h -> RI h -> h_bus h = [] -> conn_sess h c sid s ->
+  In (ToConn c' m) (snd (qstep h (op_of ctl c to tag))) ->
+  exists r t, get_sess h r = Some t /\ s_conn t = Some c' /\ s_backend t = s_backend s /\ is_virtual (s_kind t) = false.
+Proof.
+  intros W I Hb Hcs Hin.
+  destruct (msg_outputs_shape ctl h c to tag sid s _ W I Hb Hcs Hin) as (c0 & r & rc & t & E & HT & Hr & Hc).
+  injection E as <- _. pose proof (conn_sess_conn h c sid s W Hcs) as Hsc. pose proof Hcs as (cn & Hcn & Hl & Hs).
+  destruct (targets_shape h c sid s to r rc W I Hs Hsc (in_ref_targets _ _ _ _ _ HT)) as [(tr & Htr & Hbk & Hv) _].
+  rewrite Hr in Htr. injection Htr as <-. exists r, t. auto.
+Qed.
+
+(* ------------------------------------------------------------------ 3. the queues of addressed sessions without a connection *)
+Theorem msg_queues ctl h c to tag sid s y :
+  WF h -> RI h -> h_bus h = [] -> conn_sess h c sid s ->
+  pend (fst (qstep h (op_of ctl c to tag))) y =
+  match find (fun e => N.eqb (fst e) y) (ref_targets (digest_of h) ctl (sd_of h (sid, s)) to) with
+  | Some e => if disc h y then enqueue (pend h y) (the_msg h (kind_of ctl) sid s to (snd e) tag) else pend h y
+  | None => pend h y
+  end.
+Proof.
+  intros W I Hb Hcs. destruct (qstep_msg ctl h c to tag sid s W I Hb Hcs) as (h2 & outs & Hq & R).
+  rewrite Hq. cbn [fst]. destruct R as (_ & _ & _ & _ & P). apply P.
+Qed.
+
+(* ------------------------------------------------------------------ 4. nothing else changes; the bus queue is empty again *)
+Theorem msg_tables_unchanged ctl h c to tag :
+  WF h -> RI h -> h_bus h = [] ->
+  erase_h (fst (qstep h (op_of ctl c to tag))) = erase_h h /\
+  h_bus (fst (qstep h (op_of ctl c to tag))) = [] /\ h_clock h <= h_clock (fst (qstep h (op_of ctl c to tag))).
+Proof.
+  intros W I Hb.
+  assert (Hcase : (exists sid s, conn_sess h c sid s) \/ (forall sid s, ~ conn_sess h c sid s)).
+  { destruct (aget (h_conns h) c) as [cn|] eqn:Hc; [|right; intros sid s (cn & H & _); congruence].
+    destruct (c_sess cn) as [sid|] eqn:Hl; [|right; intros sid s (cn' & H & H' & _); congruence].
+    destruct (get_sess h sid) as [s|] eqn:Hs; [left; exists sid, s, cn; auto|right; intros sid' s' (cn' & H & H' & H''); congruence]. }
+  destruct Hcase as [(sid & s & Hcs)|Hn].
+  - destruct (qstep_msg ctl h c to tag sid s W I Hb Hcs) as (h2 & outs & Hq & R). rewrite Hq. cbn [fst].
+    destruct R as (_ & E & B & C & _). auto.
+  - destruct (qstep_msg_nosess ctl h c to tag Hb Hn W) as [-> | ->]; cbn [fst]; repeat split; auto; apply N.le_refl.
+Qed.
+
+(* what "equal up to pending queues, clock and bus" says, table by table *)
+Lemma pq_tables h h' : erase_h h' = erase_h h ->
+  h_limits h' = h_limits h /\ h_nb h' = h_nb h /\ h_nextsid h' = h_nextsid h /\ h_conns h' = h_conns h /\
+  h_rooms h' = h_rooms h /\ h_rs1 h' = h_rs1 h /\ h_rs2 h' = h_rs2 h /\ h_vtable h' = h_vtable h /\
+  h_expired h' = h_expired h /\ h_anonymous h' = h_anonymous h /\ h_dialout h' = h_dialout h /\
+  h_clients h' = h_clients h /\ h_counted h' = h_counted h /\ h_fail h' = h_fail h /\
+  h_mcutok h' = h_mcutok h /\ h_mcupending h' = h_mcupending h /\ h_mcuopen h' = h_mcuopen h /\ h_gated h' = h_gated h /\
+  map fst (h_sessions h') = map fst (h_sessions h) /\
+  forall x, option_map erase (get_sess h' x) = option_map erase (get_sess h x).
+Proof.
+  intros E. repeat split;
+    try (match goal with |- ?f h' = ?f h => exact (f_equal f E) end).
+  - exact (pq_keys h h' E).
+  - intros x. exact (pq_get h h' x E).
+Qed.
+
+(* ------------------------------------------------------------------ the bus queue after a quiescent step *)
+Lemma drain_stable f : forall h, h_bus (fst (drain f h)) = [] -> forall f', (f <= f')%nat -> drain f' h = drain f h.
+Proof.
+  induction f as [|f IH]; intros h Hb f' Hle.
+  - cbn [drain fst] in Hb. rewrite (drain_nil f' h Hb). reflexivity.
+  - destruct f' as [|f']; [lia|]. cbn [drain] in *. destruct (h_bus h); [reflexivity|].
+    destruct (deliver_at h 0) as [h1 o1]. destruct (drain f h1) as [h2 o2] eqn:Hd. cbn [fst] in Hb.
+    rewrite (IH h1); [now rewrite Hd|now rewrite Hd|lia].
+Qed.
+(* it is empty exactly when 500 deliveries suffice *)
+Theorem qstep_bus_empty h o f : (f <= 500)%nat -> h_bus (fst (drain f (fst (step h o)))) = [] -> h_bus (fst (qstep h o)) = [].
+Proof.
+  intros Hle Hb. unfold qstep. destruct (step h o) as [h1 o1]. cbn [fst] in Hb.
+  rewrite (drain_stable f h1 Hb 500 Hle). destruct (drain f h1) as [h2 o2]. exact Hb.
+Qed.
